@@ -113,6 +113,19 @@ def run(ctx):
                     spec_fail.append((kind, "local energies are unchanged by an orthogonal orbital rotation", {"norb": norb, "nelec": ne, "before": str(e1), "after": str(e2)}))
                 if not all(wf.close(a, b, 1e-9, 1e-9) for a, b in zip(f1, f2)):
                     spec_fail.append((kind, "force biases are unchanged by an orthogonal orbital rotation", {"norb": norb, "nelec": ne}))
+                if kind == "rhf":
+                    # the restricted-walker entry points of the same trial
+                    r1 = (complex(trial._calc_overlap_restricted(jnp.array(Wa), wd)), complex(trial._calc_energy_restricted(jnp.array(Wa), hm, wd)),
+                          np.array(trial._calc_force_bias_restricted(jnp.array(Wa), hm, wd)))
+                    r2 = (complex(trial._calc_overlap_restricted(jnp.array(Wa_r), wd_r)), complex(trial._calc_energy_restricted(jnp.array(Wa_r), hm_r, wd_r)),
+                          np.array(trial._calc_force_bias_restricted(jnp.array(Wa_r), hm_r, wd_r)))
+                    evals += 1
+                    if not wf.close(r1[0], r2[0], 1e-9):
+                        spec_fail.append((kind + " (restricted entry)", "overlaps are multiplied by the factor 1 under an orthogonal rotation",
+                                          {"norb": norb, "nelec": ne, "before": str(r1[0]), "after": str(r2[0])}))
+                    if not wf.close(r1[1], r2[1], 1e-9, 1e-9) or not all(wf.close(a, b, 1e-9, 1e-9) for a, b in zip(r1[2], r2[2])):
+                        spec_fail.append((kind + " (restricted entry)", "local energies and force biases are unchanged by an orthogonal orbital rotation",
+                                          {"norb": norb, "nelec": ne, "before": str(r1[1]), "after": str(r2[1])}))
                 # the route a run takes: the dictionary already holds the intermediates of the unrotated problem when it is rotated
                 hm_p = hobj.rotate_orbs({k: (jnp.array(v) if hasattr(v, "shape") else v) for k, v in hm.items()}, jnp.array(U))
                 hm_p = hobj.build_measurement_intermediates(hm_p, trial, wd_r)
